@@ -22,16 +22,28 @@ func (errInvalidUTF8) Unwrap() error     { return errors.Error }
 
 // initOneofFieldCoders initializes the fast-path functions for the fields in a oneof.
 //
-// For size, marshal, and isInit operations, functions are set only on the first field
+// For size, marshal, and merge operations, functions are set only on the first field
 // in the oneof. The functions are called when the oneof is non-nil, and will dispatch
 // to the appropriate field-specific function as necessary.
 //
 // The unmarshal function is set on each field individually as usual.
+// So is the isInit function, on each field that needs one: unmarshal relies on
+// it to decide whether the initialization state reported for the field matters.
 func (mi *MessageInfo) initOneofFieldCoders(od protoreflect.OneofDescriptor, si structInfo) {
 	fs := si.oneofsByName[od.Name()]
 	ft := fs.Type
 	oneofFields := make(map[reflect.Type]*coderFieldInfo)
-	needIsInit := false
+	getInfo := func(p pointer) (pointer, *coderFieldInfo) {
+		v := p.AsValueOf(ft).Elem()
+		if v.IsNil() {
+			return pointer{}, nil
+		}
+		v = v.Elem() // interface -> *struct
+		if v.IsNil() {
+			return pointer{}, nil
+		}
+		return pointerOfValue(v).Apply(zeroOffset), oneofFields[v.Elem().Type()]
+	}
 	fields := od.Fields()
 	for i, lim := 0, fields.Len(); i < lim; i++ {
 		fd := od.Fields().Get(i)
@@ -48,7 +60,13 @@ func (mi *MessageInfo) initOneofFieldCoders(od protoreflect.OneofDescriptor, si 
 		cf.mi, cf.funcs = fieldCoder(fd, cf.ft)
 		oneofFields[ot] = &cf
 		if cf.funcs.isInit != nil {
-			needIsInit = true
+			mi.coderFields[num].funcs.isInit = func(p pointer, _ *coderFieldInfo) error {
+				p, info := getInfo(p)
+				if info != &cf {
+					return nil // some other field of the oneof is set
+				}
+				return cf.funcs.isInit(p, &cf)
+			}
 		}
 		mi.coderFields[num].funcs.unmarshal = func(b []byte, p pointer, wtyp protowire.Type, f *coderFieldInfo, opts unmarshalOptions) (unmarshalOutput, error) {
 			var vw reflect.Value         // pointer to wrapper type
@@ -68,17 +86,6 @@ func (mi *MessageInfo) initOneofFieldCoders(od protoreflect.OneofDescriptor, si 
 			vi.Set(vw)
 			return out, nil
 		}
-	}
-	getInfo := func(p pointer) (pointer, *coderFieldInfo) {
-		v := p.AsValueOf(ft).Elem()
-		if v.IsNil() {
-			return pointer{}, nil
-		}
-		v = v.Elem() // interface -> *struct
-		if v.IsNil() {
-			return pointer{}, nil
-		}
-		return pointerOfValue(v).Apply(zeroOffset), oneofFields[v.Elem().Type()]
 	}
 	first := mi.coderFields[od.Fields().Get(0).Number()]
 	first.funcs.size = func(p pointer, _ *coderFieldInfo, opts marshalOptions) int {
@@ -106,15 +113,6 @@ func (mi *MessageInfo) initOneofFieldCoders(od protoreflect.OneofDescriptor, si 
 			dstp = pointerOfValue(dst.AsValueOf(ft).Elem().Elem()).Apply(zeroOffset)
 		}
 		srcinfo.funcs.merge(dstp, srcp, srcinfo, opts)
-	}
-	if needIsInit {
-		first.funcs.isInit = func(p pointer, _ *coderFieldInfo) error {
-			p, info := getInfo(p)
-			if info == nil || info.funcs.isInit == nil {
-				return nil
-			}
-			return info.funcs.isInit(p, info)
-		}
 	}
 }
 
